@@ -75,17 +75,18 @@ func keyDec(typ string, v string) string {
 }
 
 // genRegenCase returns the lines of one regeneration case: the key package, the checker wiring, then nhist histories
-func genRegenCase(r *common.RNG, nhist int) ([]string, []string) {
+func genRegenCase(r *common.RNG, nhist int, shape int) ([]string, []string) {
 	feats := []string{"regenerated"}
 	ordered := []string{"int", "string", "byte", "int64"}
-	// the struct key: 1..3 members in flatten order (own members first, then those of the embedded struct)
-	nf := 1 + r.Intn(3)
+	// the struct key: 1..3 members in flatten order (own members first, then those of the embedded struct); the six
+	// shapes (members, of which embedded) are taken in turn, so that every run sees each of them
+	sh := [][2]int{{3, 2}, {1, 0}, {2, 1}, {3, 0}, {2, 0}, {3, 1}}[shape%6]
+	nf := sh[0]
 	radices := map[int][]int{1: {8}, 2: {4, 2}, 3: {2, 2, 2}}[nf]
 	var fields []keyField
-	nEmb := 0
-	if nf > 1 && r.Bool() {
-		nEmb = 1 + r.Intn(nf-1)
-		feats = append(feats, "embedded-struct-members")
+	nEmb := sh[1]
+	if nEmb > 0 {
+		feats = append(feats, fmt.Sprintf("embedded-struct-members:%d", nEmb))
 	}
 	for i := 0; i < nf; i++ {
 		fields = append(fields, keyField{name: fmt.Sprintf("F%d", i), typ: r.Pick(ordered), radix: radices[i], embedded: i >= nf-nEmb})
@@ -149,6 +150,16 @@ func genRegenCase(r *common.RNG, nhist int) ([]string, []string) {
 	for h := 0; h < nhist; h++ {
 		lines = append(lines, common.Line("set", "reset", r.Pick(kinds)))
 		lines = append(lines, genHistory(r, 3+r.Intn(5))...)
+	}
+	// the generated order of the struct key, pair by pair: every two-element set is listed three times (the list is
+	// collected in map order before it is sorted, so a comparison that is wrong for one pair shows with probability 1/2
+	// per listing)
+	for a := 0; a < 8; a++ {
+		for b := a + 1; b < 8; b++ {
+			for rep := 0; rep < 3; rep++ {
+				lines = append(lines, common.Line("set", "reset", "K1"), common.Line("set", "new", fmt.Sprintf("%d;%d", a, b)), common.Line("set", "list", "0"))
+			}
+		}
 	}
 	return lines, feats
 }
